@@ -28,6 +28,11 @@ type c25SharedCase struct {
 	Spare int         `json:"spare"`
 	Uses  []sharedUse `json:"uses"`
 	Inter bool        `json:"interleave"` // builders: Match on all first, chained calls round-robin
+	// Spread: the And/Or constructor calls receive their operands as ONE
+	// caller-owned slice (`And(ops...)`) that the caller then re-fills for the
+	// next call (`ops = append(ops[:0], ...)`), as a loop building one query per
+	// tenant would
+	Spread bool `json:"spread,omitempty"`
 }
 
 func genC25Shared() *rapid.Generator[c25SharedCase] {
@@ -59,6 +64,7 @@ func genC25Shared() *rapid.Generator[c25SharedCase] {
 			c.Uses = append(c.Uses, u)
 		}
 		c.Inter = chance(t, "inter", 50)
+		c.Spread = chance(t, "spread", 35)
 		return c
 	})
 }
@@ -138,6 +144,7 @@ func runC25Shared(c c25SharedCase) *Violation {
 			E = spareBloom(E, c.Spare)
 		}
 		before = jsonKey(E)
+		opsB := make([]bs.BloomExpression, 0, 8)
 		atom := func(a F) bs.BloomExpression { return a.bloom() }
 		var builders []*bs.QueryBuilder
 		for i, u := range c.Uses {
@@ -156,13 +163,16 @@ func runC25Shared(c c25SharedCase) *Violation {
 				}
 				_ = i
 			case "and":
-				e := bs.And(append([]bs.BloomExpression{E}, as...)...)
+				opsB = append(append(opsB[:0], E), as...)
+				e := bs.And(spreadB(c.Spread, opsB)...)
 				queries[i] = &bs.Query{Bloom: &bs.BloomQuery{Expression: &e}}
 			case "andrev":
-				e := bs.And(append(as, E)...)
+				opsB = append(append(opsB[:0], as...), E)
+				e := bs.And(spreadB(c.Spread, opsB)...)
 				queries[i] = &bs.Query{Bloom: &bs.BloomQuery{Expression: &e}}
 			case "or":
-				e := bs.Or(append([]bs.BloomExpression{E}, as...)...)
+				opsB = append(append(opsB[:0], E), as...)
+				e := bs.Or(spreadB(c.Spread, opsB)...)
 				queries[i] = &bs.Query{Bloom: &bs.BloomQuery{Expression: &e}}
 			default:
 				e := bs.And(append([]bs.BloomExpression{bs.Or(E, as[0])}, as[1:]...)...)
@@ -204,6 +214,7 @@ func runC25Shared(c c25SharedCase) *Violation {
 			E = spareRegex(E, c.Spare)
 		}
 		before = jsonKey(E)
+		opsR := make([]bs.RegexExpression, 0, 8)
 		var builders []*bs.QueryBuilder
 		var chains []int
 		for i, u := range c.Uses {
@@ -222,13 +233,16 @@ func runC25Shared(c c25SharedCase) *Violation {
 					}
 				}
 			case "and":
-				e := bs.RegexAnd(append([]bs.RegexExpression{E}, as...)...)
+				opsR = append(append(opsR[:0], E), as...)
+				e := bs.RegexAnd(spreadR(c.Spread, opsR)...)
 				queries[i] = &bs.Query{Regex: &bs.RegexQuery{Expression: &e}}
 			case "andrev":
-				e := bs.RegexAnd(append(as, E)...)
+				opsR = append(append(opsR[:0], as...), E)
+				e := bs.RegexAnd(spreadR(c.Spread, opsR)...)
 				queries[i] = &bs.Query{Regex: &bs.RegexQuery{Expression: &e}}
 			case "or":
-				e := bs.RegexOr(append([]bs.RegexExpression{E}, as...)...)
+				opsR = append(append(opsR[:0], E), as...)
+				e := bs.RegexOr(spreadR(c.Spread, opsR)...)
 				queries[i] = &bs.Query{Regex: &bs.RegexQuery{Expression: &e}}
 			default:
 				e := bs.RegexAnd(append([]bs.RegexExpression{bs.RegexOr(E, as[0])}, as[1:]...)...)
@@ -261,6 +275,7 @@ func runC25Shared(c c25SharedCase) *Violation {
 			E = sparePref(E, c.Spare)
 		}
 		before = jsonKey(E)
+		opsP := make([]bs.PrefilterExpression, 0, 8)
 		for i, u := range c.Uses {
 			var as []bs.PrefilterExpression
 			for _, a := range u.Atoms {
@@ -269,11 +284,14 @@ func runC25Shared(c c25SharedCase) *Violation {
 			var e bs.PrefilterExpression
 			switch u.How {
 			case "and", "chain":
-				e = bs.PrefilterAnd(append([]bs.PrefilterExpression{E}, as...)...)
+				opsP = append(append(opsP[:0], E), as...)
+				e = bs.PrefilterAnd(spreadP(c.Spread, opsP)...)
 			case "andrev":
-				e = bs.PrefilterAnd(append(as, E)...)
+				opsP = append(append(opsP[:0], as...), E)
+				e = bs.PrefilterAnd(spreadP(c.Spread, opsP)...)
 			case "or":
-				e = bs.PrefilterOr(append([]bs.PrefilterExpression{E}, as...)...)
+				opsP = append(append(opsP[:0], E), as...)
+				e = bs.PrefilterOr(spreadP(c.Spread, opsP)...)
 			default:
 				e = bs.PrefilterAnd(append([]bs.PrefilterExpression{bs.PrefilterOr(E, as[0])}, as[1:]...)...)
 			}
@@ -336,4 +354,26 @@ func chainRegex(b *bs.QueryBuilder, a F) {
 	default:
 		b.FieldRegex(fmt.Sprintf("ft%d", a.I), "v")
 	}
+}
+
+
+// spreadX: with reuse, the constructor receives the caller's own slice (whose
+// backing array the next call re-fills); without, a private copy.
+func spreadB(reuse bool, ops []bs.BloomExpression) []bs.BloomExpression {
+	if reuse {
+		return ops
+	}
+	return append([]bs.BloomExpression(nil), ops...)
+}
+func spreadR(reuse bool, ops []bs.RegexExpression) []bs.RegexExpression {
+	if reuse {
+		return ops
+	}
+	return append([]bs.RegexExpression(nil), ops...)
+}
+func spreadP(reuse bool, ops []bs.PrefilterExpression) []bs.PrefilterExpression {
+	if reuse {
+		return ops
+	}
+	return append([]bs.PrefilterExpression(nil), ops...)
 }
